@@ -129,6 +129,18 @@ func (r *Run) See(class, value string) {
 	r.mu.Unlock()
 }
 
+// SeeN records n observations of a coverage class value at once.
+func (r *Run) SeeN(class, value string, n int64) {
+	r.mu.Lock()
+	s := r.sets[class]
+	if s == nil {
+		s = map[string]int64{}
+		r.sets[class] = s
+	}
+	s[value] += n
+	r.mu.Unlock()
+}
+
 // Seen reports how often a class value was observed.
 func (r *Run) Seen(class, value string) int64 {
 	r.mu.Lock()
